@@ -93,4 +93,48 @@ theorem get_full_eq_iter (sul : SULW) (rpre rpost : List LR) (r : LR) (lpre lpos
   have := get_slice sul rpre rpost r lpre lpost d ds hlen hs hc 0 (-1)
   simpa [sliceSpec] using this
 
+/-! ### NOT PROVED: `positions_encode`
+
+Full statement (kept here, exercised only):
+
+  theorem positions_encode (sul recs ℓ) (hs : sul.conformant) (hne : recs ≠ []) (hc : ℓ.conformant recs) :
+      iterPositions (encode sul recs ℓ) = .ok ((specPositionsS recs ℓ).map PosSpec.toDesc)
+
+i.e. the position scan (`LogicalRecordIndex._enter`) yields one entry per record, with the (visible record, first
+segment) positions that follow from the layout — entry k is `recEntry` of record k, the pair the theorems above fetch
+at —, the first segment's attribute byte, the record type and the summed body length.  The gap: the induction over the
+flat segment list for `scanGo` (the analogue of `TD.C01.iterGo_flat`) is not done.  What stands in for it on every
+run: the correspondence streams `positions` (model = implementation) and `spec_positions` (`specPositionsS` evaluated
+by the driver = implementation) and the oracle on the implementation (entries = positions computed independently in
+Python from the layout).  Below: the statement checked by kernel evaluation on a concrete file with 4 records,
+6 segments, 3 visible records (the C01 example). -/
+
+example : iterPositionsSt (encode exSul exRecs exLayout)
+    = ((specPositionsS exRecs exLayout).map fun c => ⟨c.vrPos, c.lrshPos, c.attr, c.type, (c.ldLen : Int)⟩, none) := by
+  decide +kernel
+
+example : (specPositionsS exRecs exLayout).map (fun c => (c.vrPos, c.lrshPos, c.type, c.ldLen))
+    = [(80, 84, 0, 34), (120, 140, 5, 12), (156, 160, 127, 12), (156, 176, 3, 12)] := by decide +kernel
+
+/-! ### the hypotheses are satisfiable, and the theorems bite on a concrete multi-segment record -/
+
+/-- record 0 of the example (30 bytes in 3 segments over 2 visible records): entry (80, 84) -/
+example : recEntry [] [] ⟨10, 2, 0, none, false, false, false, some 40⟩ = (80, 84) := by decide
+example : (Layout.mk ([] ++ exLayout.recs)).conformant ([] ++ exRecs) = true := by decide
+/-- a slice spanning all three segments, evaluated by the kernel on the model -/
+example : (fetch (encode exSul exRecs exLayout) ⟨80, 84, 7, 20⟩).toOption.map (·.out) = some ((List.range 30).drop 7 |>.take 20) := by
+  decide +kernel
+/-- beyond the end / negative length -/
+example : (fetch (encode exSul exRecs exLayout) ⟨80, 84, 25, 100⟩).toOption.map (·.out) = some [25, 26, 27, 28, 29] := by
+  decide +kernel
+example : (fetch (encode exSul exRecs exLayout) ⟨80, 84, 28, -1⟩).toOption.map (·.out) = some [28, 29] := by decide +kernel
+/-- its reads stay inside visible records 1 and 2 (bytes 80 … 156) -/
+example : (fetch (encode exSul exRecs exLayout) ⟨80, 84, 0, -1⟩).toOption.map (·.touched)
+    = some [(80, 4), (84, 4), (88, 12), (100, 4), (104, 12), (120, 4), (124, 4), (128, 10)] := by decide +kernel
+/-- a history with repetitions in any order equals the independent fetches -/
+example : (runHist (encode exSul exRecs exLayout) ⟨999, ⟨1, 2⟩, ⟨3, 4, 5, 6⟩⟩
+      [⟨156, 176, 0, -1⟩, ⟨80, 84, 3, 4⟩, ⟨156, 176, 0, -1⟩]).map Except.toOption
+    = ([⟨156, 176, 0, -1⟩, ⟨80, 84, 3, 4⟩, ⟨156, 176, 0, -1⟩].map (fetch (encode exSul exRecs exLayout))).map Except.toOption := by
+  decide +kernel
+
 end TD.C02
